@@ -19,10 +19,12 @@
 //   probe SID            real load of a *copy* of SID's file (non-destructive): ok T HEX | none
 //   remove SID           real remove
 //   gc                   real gc (through session_file_storage_factory::gc_job)
+//   crc HEX              cppcms::impl::crc32_calc (zlib in this build) over the bytes, decimal
 //   ls                   NAME:HEX,... sorted
 // Output: the answers joined by " | ".
 #include "common.h"
 #include "session_posix_file_storage.h"
+#include "crc32.h"
 #include <cppcms/cppcms_error.h>
 #include <sys/types.h>
 #include <sys/stat.h>
@@ -230,6 +232,11 @@ static std::string run(std::vector<std::string> const &w)
 				else { write_file(path_of(tmp),d); a=load_str(*st,tmp); unlink(path_of(tmp).c_str()); }
 			}
 			else if(op[0]=="remove" && op.size()==2 && good_name(op[1]) && op[1].size()>=4) { st->remove(op[1]); a="ok"; }
+			else if(op[0]=="crc" && op.size()==2) {
+				std::string d; if(!vh::unhex(op[1],d)) return "bad-op";
+				cppcms::impl::crc32_calc cc; cc.process_bytes(d.data(),d.size());
+				a=std::to_string((unsigned long)cc.checksum());
+			}
 			else if(op[0]=="gc" && op.size()==1) { fac->gc_job(); a="ok"; }
 			else if(op[0]=="ls" && op.size()==1) {
 				std::vector<std::string> v=list_dir();
